@@ -145,6 +145,9 @@ pub struct Model {
     pub check_streams: bool,
     pub check_ctx: bool,
     pub check_client_acks: bool,
+    /// the scenario rewinds the identifier counter itself (hook) to make two outstanding operations
+    /// share an identifier value: the uniqueness rule of C11 is then not the library's to keep
+    pub allow_pid_reuse: bool,
     pub connect_spec: Option<ConnectSpec>,
     pub pending_connect: bool,
     pub connecting_cmd: &'static str,
@@ -202,6 +205,7 @@ impl Model {
             check_streams: true,
             check_ctx: true,
             check_client_acks: true,
+            allow_pid_reuse: false,
             connect_spec: None,
             pending_connect: false,
             connecting_cmd: "connect",
@@ -1062,6 +1066,9 @@ impl Model {
     // comparison
 
     fn pid_in_use(&self, pid: u16, except: usize) -> bool {
+        if self.allow_pid_reuse {
+            return false;
+        }
         self.by_pid
             .get(&pid)
             .map(|v| {
